@@ -65,7 +65,7 @@ def run(rep, tier, seed, replay_file=None):
         "Deque back-ends are stepped with one dispatch worker (two idle waiters on one Deque condition variable never quiesce, DESIGN 3.3)",
     ]
     if replay_file:
-        bc.replay_file(rep, replay_file, [TRACE])
+        bc.replay_file(rep, replay_file, None)
         return
     binary = harness.build("vh-broker")
     # 1. design level
@@ -75,13 +75,13 @@ def run(rep, tier, seed, replay_file=None):
     scheds, _ = bc.gen_schedules(rep, quick, seed, 2200 if quick else 9000)
     hists = bc.run_schedules(rep, binary, scheds, 12, seed, "broker/sched") if scheds else []
     if hists:
-        bc.judge(rep, hists, TRACE, "broker/sched", shards=8, relaxed_cfg="Trace_c08_relaxed.cfg")
+        bc.judge_delivery(rep, hists, "broker/sched")
         rep.sample(dict(kind="driver schedule (BrokerStep) executed with observation at quiescence", schedule=scheds[len(scheds) // 2]))
         rep.sample(dict(kind="recorded history judged by BrokerTrace", events=max(hists[:200], key=len)[:30]))
     # 3. code -> model: random concurrent drivers
     rec = bc.record(rep, binary, 600 if quick else 6000, seed)
     if rec:
-        bc.judge(rep, rec, TRACE, "broker/record", shards=8, relaxed_cfg="Trace_c08_relaxed.cfg")
+        bc.judge_delivery(rep, rec, "broker/record")
     else:
         rep.infra_error("recorder produced no history")
     # 4. the binding is not vacuous
